@@ -43,7 +43,7 @@ TABLE = [
     (('intrabc_mode', 'screen_content_mode'), [('FrameHeader.allow_intrabc', 0), ('PictureParentControlSet.ibc_mode', 0)]),
     (('enable_warped_motion',), [('SeqHeader.enable_warped_motion', 0), ('FrameHeader.allow_warped_motion', 0)]),
     (('obmc_level',), [('PictureParentControlSet.pic_obmc_level', 0)]),
-    (('filter_intra_level',), [('SeqHeader.filter_intra_level', 0), ('PictureControlSet.pic_filter_intra_level', 0)]),
+    (('filter_intra_level',), [('SeqHeader.filter_intra_level', 0), ('PictureControlSet.pic_filter_intra_level', 0), ('ModeDecisionContext.md_filter_intra_level', 0)]),
     (('inter_intra_compound',), [('SeqHeader.enable_interintra_compound', 0)]),
     (('superres_mode',), [('PictureParentControlSet.frame_superres_enabled', 0), ('SeqHeader.enable_superres', 0)]),
     (('tile_rows',), [('PictureParentControlSet.log2_tile_rows', None), ('Av1Common.log2_tile_rows', None)]),
@@ -362,12 +362,12 @@ OFF_TABLE = [
     ('disable_dlf_flag', 1, [('PictureParentControlSet.loop_filter_mode', 0)]),
     ('cdef_level', 0, [('SeqHeader.cdef_level', 0), ('PictureParentControlSet.cdef_level', 0)]),
     ('enable_restoration_filtering', 0, [('SeqHeader.enable_restoration', 0)]),
-    ('palette_level', 0, [('PictureParentControlSet.palette_level', 0)]),
+    ('palette_level', 0, [('PictureParentControlSet.palette_level', 0), ('ModeDecisionContext.md_palette_level', 0)]),
     ('intrabc_mode', 0, [('FrameHeader.allow_intrabc', 0), ('PictureParentControlSet.ibc_mode', 0)]),
     ('enable_warped_motion', 0, [('SeqHeader.enable_warped_motion', 0), ('FrameHeader.allow_warped_motion', 0)]),
-    ('obmc_level', 0, [('PictureParentControlSet.pic_obmc_level', 0)]),
-    ('filter_intra_level', 0, [('SeqHeader.filter_intra_level', 0), ('PictureControlSet.pic_filter_intra_level', 0)]),
-    ('inter_intra_compound', 0, [('SeqHeader.enable_interintra_compound', 0)]),
+    ('obmc_level', 0, [('PictureParentControlSet.pic_obmc_level', 0), ('ModeDecisionContext.md_pic_obmc_level', 0)]),
+    ('filter_intra_level', 0, [('SeqHeader.filter_intra_level', 0), ('PictureControlSet.pic_filter_intra_level', 0), ('ModeDecisionContext.md_filter_intra_level', 0)]),
+    ('inter_intra_compound', 0, [('SeqHeader.enable_interintra_compound', 0), ('ModeDecisionContext.md_inter_intra_level', 0)]),
     ('superres_mode', 0, [('PictureParentControlSet.frame_superres_enabled', 0), ('SeqHeader.enable_superres', 0)]),
     ('screen_content_mode', 0, [('PictureParentControlSet.sc_content_detected', 0), ('FrameHeader.allow_screen_content_tools', 0)]),
 ]
